@@ -246,13 +246,27 @@ func (r c08Runner) run(src string, origin string) {
 func TestC08Corpus(t *testing.T) {
 	seedNote(t)
 	StartWatchdog("C08", 60*time.Second)
-	st := NewStats("C08", "corpus", "exhaustive over the corpus (docs/examples and every source string of the repository's tests): each program, every byte prefix, and every single-token deletion / duplication / adjacent swap; oracle: Compile returns exactly one of (program, error), the error prints, no panic, accepted trees have no nil holes; non-trivial = got past the lexer; distinct by input bytes")
+	st := NewStats("C08", "corpus", "exhaustive over the corpus (docs/examples and every source string of the repository's tests): each program, every byte prefix, and every single-token deletion / duplication / adjacent swap; plus every \\xHH escape 00..ff in both letter cases and every backslash + byte pair in string literals, regex literals, ranges, with-lists and transforms; oracle: Compile returns exactly one of (program, error), the error prints, no panic, accepted trees have no nil holes; non-trivial = got past the lexer; distinct by input bytes")
 	st.Exhaustive = true
 	defer st.Write()
 	r := c08Runner{t, st}
 	corpus := loadCorpus(t)
 	nshards := envInt("VERIF_NSHARDS", 1)
 	shardIdx := envInt("VERIF_SHARD_INDEX", 0)
+	if shardIdx == 0 {
+		// every two-digit hex escape (0x00..0xff, both letter cases) and every
+		// backslash + byte pair, in each place an escape can be written
+		for c := 0; c < 256; c++ {
+			for _, hh := range []string{fmt.Sprintf("%02x", c), fmt.Sprintf("%02X", c)} {
+				for _, f := range []string{"find all '\\x%s'", "find all \"a\\x%sb\"", "find all @/\\x%s/", "find all in '\\x%s' to 'z'", "replace all 'a' with '\\x%s'", "set f to transform return '\\x%s' end replace all 'a' with f"} {
+					r.run(fmt.Sprintf(f, hh), "escape")
+				}
+			}
+			for _, f := range []string{"find all '\\%s'", "find all \"a\\%sb\"", "find all @/\\%s/", "find all @/[\\%s]/"} {
+				r.run(fmt.Sprintf(f, string([]byte{byte(c)})), "escape")
+			}
+		}
+	}
 	for i, name := range sortedKeys(corpus) {
 		if i%nshards != shardIdx {
 			continue
